@@ -139,7 +139,7 @@ func runFree(c *Case, e *evalCtx) *freeResult {
 	for _, items := range f.Producers {
 		var a []int
 		for _, it := range items {
-			if !dropped[it.R.ID] {
+			if !dropped[it.R.ID] && !e.recs[it.R.ID].Bad { // an unserialisable record is accepted by the queue and dropped by Append
 				a = append(a, it.R.ID)
 				total++
 			}
@@ -204,8 +204,8 @@ func runFree(c *Case, e *evalCtx) *freeResult {
 		// classify by content: every pack holds at least one record
 		d0 := decodePack(h.Snap, h.Count, h.Status)
 		site, src := "sendAndClear", "S"
-		if d0.Err == "" && len(d0.Encs) > 0 {
-			if id, ok := e.byEnc[string(d0.Encs[0])]; ok && directSet[id] {
+		if d0.Err == "" && len(d0.Recs) > 0 {
+			if id := int(d0.Recs[0].Oid) / 31; directSet[id] {
 				site, src = "SendDirect", "D"
 			}
 		}
